@@ -30,3 +30,14 @@ Theorem C07_nth_prime_large :
   nth_prime primePiApprox nthPrimeApprox cnt fwd bwd n start = NThrow.
 Proof. exact nth_prime_large. Qed.
 Print Assumptions C07_nth_prime_large.
+
+(** the same with every source of primes taken from the model kernel (Properties_C04: C04_erat_model_spec): the count
+    and the forward / backward walks are lists produced by the kernel model; no hypothesis about the sieve is left.
+    (The walks are taken from the kernel's list, not from a run of the iterator model.) *)
+From PS Require Import Proofs.KernelInstP.
+Theorem C07_nth_prime_model_kernel : forall l1 maxKB, 16 <= maxKB -> maxKB <= 8192 ->
+  forall primePiApprox nthPrimeApprox, (forall x, nthPrimeApprox x <= MAX64) ->
+  forall n start, start <= MAX64 -> (Z.abs n <= Z.of_N max_n)%Z ->
+  nth_prime primePiApprox nthPrimeApprox (cnt_model l1 maxKB) (fwd_model l1 maxKB) (bwd_model l1 maxKB) n start = of_opt (nth_spec n start).
+Proof. exact nth_prime_model. Qed.
+Print Assumptions C07_nth_prime_model_kernel.
